@@ -20,6 +20,8 @@ def contracts():
         for m in re.finditer(r"^//@ func ((?:\(\*?\w+\)\.)?[\w.$]+)\(",open(f).read(),re.M):
             names.add(pkg+"."+m.group(1))
     return names
+WAVE=1
+MUTS2=[(r"(?<![\w.\"])0(?![\w.\"x])","1"),(r"(?<![\w.\"])1(?![\w.\"])","0"),(r"(?<![\w.\"])1(?![\w.\"])","2"),(r"\[0\]","[1]"),(r"len\((\w+)\) == 0","len(\\1) == 1"),(r"len\((\w+)\) > 0","len(\\1) > 1")]
 MUTS=[
  (r"==","!="),(r"!=","=="),(r"<=","<"),(r">=",">"),(r"(?<![<>=!-])<(?![=<-])","<="),(r"(?<![<>=!-])>(?![=>])",">="),
  (r"&&","||"),(r"\|\|","&&"),(r"\+ 1\b","+ 2"),(r"\+ 1\b",""),(r"- 1\b",""),(r"\btrue\b","false"),(r"\bfalse\b","true"),
@@ -46,6 +48,16 @@ def gen(path):
                 if code[:mm.start()].count('"')%2==1: continue
                 nl=code[:mm.start()]+rep+code[mm.end():]
                 out.append((path,i,cur,l,nl,"%s->%s"%(pat,rep)))
+        if WAVE==2:
+            out=[o for o in out if o[0]!=path or o[1]!=i]  # wave 2: only the additional operators on this line
+            for pat,rep in MUTS2:
+                for mm in re.finditer(pat,code):
+                    if code[:mm.start()].count('"')%2==1: continue
+                    nl=code[:mm.start()]+re.sub(pat,rep,mm.group(0))+code[mm.end():]
+                    if nl!=code: out.append((path,i,cur,l,nl,"%s->%s"%(pat,rep)))
+            if s=="return": out.append((path,i,cur,l,"","delete-return"))
+            if re.match(r"^\s*[\w.\[\]]+ (=|\+=|-=) [^{]+$",l) and ":=" not in l: out.append((path,i,cur,l,"","delete-assign"))
+            continue
         # statement deletion: a single-line call statement
         if re.match(r"^\s*[\w.\[\]]+\([^{}]*\)$",l) and not s.startswith("return") and not s.startswith("defer"):
             out.append((path,i,cur,l,"","delete-stmt"))
@@ -84,6 +96,7 @@ def run(job):
     sh("rm -rf %s %s"%(sc,outd)); return res
 if __name__=="__main__":
     flt=sys.argv[1]; jobs=4
+    WAVE=2 if "--wave2" in sys.argv else 1
     if "--jobs" in sys.argv: jobs=int(sys.argv[sys.argv.index("--jobs")+1])
     CONTRACTED=contracts()
     PROPS=json.load(open('/verif/contracts/properties.json'))
@@ -92,7 +105,7 @@ if __name__=="__main__":
         if flt in f: allm+=gen(f)
     allm=[m for m in allm if any(c==m[2] or c.startswith(m[2]+"$") for c in CONTRACTED)]
     print(len(allm),"mutants in functions under contract",flush=True)
-    outp="/verif/work/sweep_%s.jsonl"%re.sub(r"\W","_",flt)
+    outp="/verif/work/sweep%s_%s.jsonl"%("2" if WAVE==2 else "",re.sub(r"\W","_",flt))
     with open(outp,"w") as fo, cf.ThreadPoolExecutor(jobs) as ex:
         for r in ex.map(run,enumerate(allm)):
             fo.write(json.dumps(r)+"\n"); fo.flush()
